@@ -67,7 +67,13 @@ def workload(chk):
                                                               "--override-abi", "f.*=efiapi", "--override-abi", ".*=C"]])
         elif k == "types":
             p = write(os.path.join(d, "g%d.h" % i), G.Gen(rng, dict(bf_in_union=False)).generate().header())
-            fl = [p] + rng.choice([[], ["--impl-debug", "--with-derive-default"], ["--default-enum-style", "rust"]])
+            fl = [p] + rng.choice([[], ["--impl-debug", "--with-derive-default"], ["--default-enum-style", "rust"],
+                                   # the same kind of custom derive / attribute option several times, with patterns that overlap on the same types
+                                   ["--with-derive-custom", "S.*=PartialOrd", "--with-derive-custom", ".*=Hash", "--with-derive-custom", "[SRU].*=Eq,PartialEq",
+                                    "--with-attribute-custom", ".*=#[allow(dead_code)]", "--with-attribute-custom", "S.*=#[must_use]"],
+                                   ["--with-derive-custom-struct", ".*=Default", "--with-derive-custom-struct", "S[0-9]=Hash,Ord", "--with-derive-custom-struct", "S.*=PartialOrd",
+                                    "--with-attribute-custom-struct", "S.*=#[cfg(all())]", "--with-attribute-custom-struct", ".*=#[allow(unused)]",
+                                    "--with-derive-custom-union", ".*=Debug2", "--with-derive-custom-union", "U.*=Zeroable"]])
         else:
             body = "".join("static inline int sf%d_%d(int a, long b) { return a + (int)b + %d; }\n" % (i, j, j) for j in range(rng.randint(1, 6)))
             p = write(os.path.join(d, "g%d.h" % i), body + gen_funcs.gen_c(rng, 6)[0])
